@@ -53,6 +53,8 @@ def scenario_var_edit(v0, v1):
 SCENARIOS = [
     ("var-edit:bool-flag", lambda: scenario_var_edit(["bool", True], ["bool", False])),
     ("var-edit:none-to-int", lambda: scenario_var_edit(["none"], i_(5))),
+    ("var-edit:dict-entries-reordered", lambda: scenario_var_edit(["dict", [[s_("a"), i_(1)], [s_("b"), i_(2)]]], ["dict", [[s_("b"), i_(2)], [s_("a"), i_(1)]]])),
+    ("var-edit:list-reordered", lambda: scenario_var_edit(["list", [i_(1), i_(2)]], ["list", [i_(2), i_(1)]])),
     ("var-edit-between-colliding-values:empty-str-vs-empty-list", lambda: scenario_var_collision(s_(""), ["list", []])),
     ("var-edit-between-colliding-values:int-vs-4byte-str", lambda: scenario_var_collision(i_(0x41424344), s_("ABCD"))),
     ("runtime-arg-edit:single-line", lambda: scenario_multiline("single", 0)),
